@@ -27,7 +27,29 @@ use tiny_std::process::{Command, Stdio};
 use tiny_std::unix::fd::AsRawFd;
 use tiny_std::{Errno, UnixStr, UnixString};
 
+/// The harness's allocator: every fresh block, and 16 bytes of slack after it, is filled with 0xA5, so
+/// that a pointer vector whose terminating NULL is missing (or was overwritten) never finds an
+/// accidental zero word behind its last element: execve then sees the wild pointer 0xA5A5.. instead
+/// of a vector that happens to end.  (`realloc`/`alloc_zeroed` go through `alloc` by default.)
+struct Poison;
+unsafe impl std::alloc::GlobalAlloc for Poison {
+    unsafe fn alloc(&self, l: std::alloc::Layout) -> *mut u8 {
+        let Ok(big) = std::alloc::Layout::from_size_align(l.size() + 16, l.align()) else { return std::ptr::null_mut() };
+        let p = std::alloc::System.alloc(big);
+        if !p.is_null() {
+            std::ptr::write_bytes(p, 0xA5, big.size());
+        }
+        p
+    }
+    unsafe fn dealloc(&self, p: *mut u8, l: std::alloc::Layout) {
+        std::alloc::System.dealloc(p, std::alloc::Layout::from_size_align_unchecked(l.size() + 16, l.align()));
+    }
+}
+#[global_allocator]
+static POISON: Poison = Poison;
+
 const WITH_START: bool = cfg!(feature = "with-start");
+const REPEATS: [usize; 4] = [1, 2, 3, 5];
 const CASE_ALARM: u32 = 10;
 /// after this many hanging cases (over all shards) the remaining cases are skipped (recorded as a cap)
 const MAX_HANGS: u64 = 3;
@@ -105,10 +127,18 @@ impl Config {
         }
     }
     fn to_json(&self) -> Value {
+        // count ladders are written as {"ladder": n}
+        let list = |v: &Vec<Vec<u8>>, gen: fn(usize) -> Vec<Vec<u8>>| -> Value {
+            if v.len() > 2 && *v == gen(v.len()) {
+                json!({"ladder": v.len()})
+            } else {
+                json!(v.iter().map(|a| show_bytes(a)).collect::<Vec<_>>())
+            }
+        };
         json!({
             "bin": self.bin,
-            "args": self.args.iter().map(|a| show_bytes(a)).collect::<Vec<_>>(),
-            "env": match &self.env { None => Value::Null, Some(v) => json!(v.iter().map(|a| show_bytes(a)).collect::<Vec<_>>()) },
+            "args": list(&self.args, ladder_args),
+            "env": match &self.env { None => Value::Null, Some(v) => list(v, ladder_env) },
             "inherit": match &self.inherit { None => Value::Null, Some(v) => json!(v.iter().map(|a| show_bytes(a)).collect::<Vec<_>>()) },
             "cwd": self.cwd,
             "stdio": self.stdio.iter().map(|m| m.name()).collect::<Vec<_>>(),
@@ -121,8 +151,8 @@ impl Config {
         let s = |k: &str, d: &str| v[k].as_str().unwrap_or(d).to_string();
         Config {
             bin: s("bin", "helper"),
-            args: strs(&v["args"]),
-            env: if v["env"].is_null() { None } else { Some(strs(&v["env"])) },
+            args: match v["args"]["ladder"].as_u64() { Some(n) => ladder_args(n as usize), None => strs(&v["args"]) },
+            env: if v["env"].is_null() { None } else { Some(match v["env"]["ladder"].as_u64() { Some(n) => ladder_env(n as usize), None => strs(&v["env"]) }) },
             inherit: if v["inherit"].is_null() { None } else { Some(strs(&v["inherit"])) },
             cwd: s("cwd", "unset"),
             stdio: [st.first().copied().unwrap_or(Sm::Unset), st.get(1).copied().unwrap_or(Sm::Unset), st.get(2).copied().unwrap_or(Sm::Unset)],
@@ -163,11 +193,15 @@ struct Fault {
     /// the call is executed for real and the error reported afterwards (`close`)
     after_real: bool,
     step: String,
+    /// Some((a0, a1, r)): not the call at `idx` but the call SITE (same syscall, same first argument —
+    /// descriptor / pid —, for dup3 also the same target) answers `errno` r times in a row and then proceeds
+    site: Option<(u64, u64, usize)>,
 }
 impl Fault {
     fn to_json(&self) -> Value {
         json!({"side": if self.child { "child" } else { "parent" }, "idx": self.idx, "nr": self.nr, "call": sysx::name(self.nr),
-               "errno": self.errno, "after_real": self.after_real, "step": self.step})
+               "errno": self.errno, "after_real": self.after_real, "step": self.step,
+               "site": self.site.map(|(a0, a1, r)| json!({"a0": a0, "a1": a1, "times": r}))})
     }
     fn from_json(v: &Value) -> Fault {
         Fault {
@@ -177,12 +211,15 @@ impl Fault {
             errno: v["errno"].as_i64().unwrap_or(0) as i32,
             after_real: v["after_real"].as_bool().unwrap_or(false),
             step: v["step"].as_str().unwrap_or("?").to_string(),
+            site: if v["site"].is_object() { Some((v["site"]["a0"].as_u64().unwrap_or(0), v["site"]["a1"].as_u64().unwrap_or(0), v["site"]["times"].as_u64().unwrap_or(1) as usize)) } else { None },
         }
     }
     /// failures the code may legitimately absorb: `close` reporting an error after having
     /// released the descriptor, an interrupted `read`/`wait4`
     fn tolerable(&self) -> bool {
-        self.nr == libc::SYS_close || ((self.nr == libc::SYS_read || self.nr == libc::SYS_wait4) && self.errno == libc::EINTR) || (self.nr == libc::SYS_dup3 && self.errno == libc::EBUSY)
+        self.nr == libc::SYS_close
+            || ((self.nr == libc::SYS_read || self.nr == libc::SYS_wait4 || self.nr == libc::SYS_dup3) && self.errno == libc::EINTR)
+            || (self.nr == libc::SYS_dup3 && self.errno == libc::EBUSY)
     }
 }
 
@@ -249,6 +286,7 @@ struct Shm {
     fault_hit: AtomicU32,
     fault_nr_mismatch: AtomicU32,
     fault_seen_nr: AtomicI64,
+    site_applied: AtomicU32,
     trace_n: AtomicU32,
     obs_len: AtomicU32,
     trace: [TraceEnt; TRACE_CAP],
@@ -274,6 +312,8 @@ struct CasePlan {
     caller: i32,
     faults: Vec<Fault>,
     last_slot: usize,
+    /// per fault: how often a site deviation has been applied (in this process)
+    applied: Vec<usize>,
 }
 impl sysx::Plan for CasePlan {
     fn decide(&mut self, idx: usize, nr: i64, args: &[u64; 6]) -> sysx::Decision {
@@ -292,6 +332,17 @@ impl sysx::Plan for CasePlan {
                 e.has_ret = 0;
             }
             for (i, f) in self.faults.iter().enumerate() {
+                if let Some((a0, a1, times)) = f.site {
+                    // (wait4's first argument is the child's pid, different in every run: any wait4 of that side)
+                    let same = f.child == child && f.nr == nr && (nr == libc::SYS_wait4 || args[0] == a0) && (nr != libc::SYS_dup3 || args[1] == a1);
+                    if same && self.applied[i] < times {
+                        self.applied[i] += 1;
+                        (*self.shm).fault_hit.fetch_or(1 << i, SeqCst);
+                        (*self.shm).site_applied.fetch_add(1, SeqCst);
+                        return sysx::Decision::Force(-(f.errno as i64));
+                    }
+                    continue;
+                }
                 if f.child == child && f.idx == idx {
                     if f.nr != nr {
                         (*self.shm).fault_nr_mismatch.fetch_or(1 << i, SeqCst);
@@ -588,12 +639,18 @@ fn exec_case(ctx: &Ctx, sdir: &str, shm: *mut Shm, shard_pgid: i32, cfg: &Config
         }
         let bin = UnixStr::try_from_bytes(&bin_b).expect("bin");
         let mut cmd = Command::new(bin).expect("Command::new");
-        for a in &args_b {
-            cmd.arg(UnixStr::try_from_bytes(a).expect("arg"));
-        }
-        if let Some(envs) = &cfg.env {
-            let v: Vec<UnixString> = envs.iter().map(|e| UnixString::try_from_vec(nul(e)).expect("env entry")).collect();
-            cmd.envs(v.into_iter());
+        // the builder calls are part of the subject too (they lay out the argv / envp vectors)
+        let built = catch(|| {
+            for a in &args_b {
+                cmd.arg(UnixStr::try_from_bytes(a).expect("arg"));
+            }
+            if let Some(envs) = &cfg.env {
+                let v: Vec<UnixString> = envs.iter().map(|e| UnixString::try_from_vec(nul(e)).expect("env entry")).collect();
+                cmd.envs(v.into_iter());
+            }
+        });
+        if let Err(p) = built {
+            finish(shm, &json!({"spawn": "panic", "panic": format!("while building the command (Command::arg / envs): {p}"), "fault_hit": 0, "trace_overflow": false, "returned_in_child": 0}));
         }
         if cfg.cwd != "unset" {
             cmd.cwd(UnixStr::try_from_bytes(&cwd_b).expect("cwd"));
@@ -665,7 +722,7 @@ fn exec_case(ctx: &Ctx, sdir: &str, shm: *mut Shm, shard_pgid: i32, cfg: &Config
         }
 
         // ---- the operation under test
-        let mut plan = CasePlan { shm, caller, faults: faults.to_vec(), last_slot: usize::MAX };
+        let mut plan = CasePlan { shm, caller, faults: faults.to_vec(), last_slot: usize::MAX, applied: vec![0; faults.len()] };
         let res = catch(|| {
             sysx::run_opt(&mut plan, None, || {
                 let r = cmd.spawn();
@@ -773,6 +830,7 @@ fn exec_case(ctx: &Ctx, sdir: &str, shm: *mut Shm, shard_pgid: i32, cfg: &Config
         obs["closure_runs"] = json!((*shm).closure_runs.load(SeqCst));
         obs["fault_hit"] = json!((*shm).fault_hit.load(SeqCst));
         obs["fault_nr_mismatch"] = json!((*shm).fault_nr_mismatch.load(SeqCst));
+        obs["site_applied"] = json!((*shm).site_applied.load(SeqCst));
         obs["trace_overflow"] = json!((*shm).trace_n.load(SeqCst) as usize > TRACE_CAP);
         obs["trace"] = json!(trace_json(shm, caller));
         finish(shm, &obs);
@@ -1056,12 +1114,14 @@ fn judge_ok(ctx: &Ctx, cfg: &Config, obs: &Value, r: &mut Report, rp: &Value) {
 /// Judge one run.  Returns the observation's trace (for deriving faults) when there is one.
 fn judge(ctx: &Ctx, cfg: &Config, faults: &[Fault], res: &Result<Value, String>, r: &mut Report) {
     let rp = replay_of(cfg, faults);
-    let step = match (faults.first(), cfg.natural_failure()) {
-        (Some(f), _) if faults.len() == 1 => f.step.clone(),
-        (Some(_), _) => faults.iter().map(|f| f.step.as_str()).collect::<Vec<_>>().join("+"),
-        (None, Some((s, _))) => s,
-        (None, None) if cfg.drops_both_ids() => "child-setgid".into(),
-        (None, None) => "none".into(),
+    // the step the keys name: the deviation that must make spawn fail, else the natural failure, else the
+    // (absorbable) deviation
+    let step = match (faults.iter().find(|f| !f.tolerable()), cfg.natural_failure(), faults.first()) {
+        (Some(f), _, _) => f.step.clone(),
+        (None, Some((s, _)), _) => s,
+        (None, None, Some(f)) => f.step.clone(),
+        (None, None, None) if cfg.drops_both_ids() => "child-setgid".into(),
+        (None, None, None) => "none".into(),
     };
     let obs = match res {
         Ok(o) => o,
@@ -1109,10 +1169,20 @@ fn judge(ctx: &Ctx, cfg: &Config, faults: &[Fault], res: &Result<Value, String>,
     }
     let spawn_ok = obs["spawn"] == "ok";
     // expectation
-    let tolerated = !faults.is_empty() && faults.iter().all(|f| f.tolerable());
-    let expected_errnos: Vec<i32> = if !faults.is_empty() { faults.iter().map(|f| f.errno).collect() } else { cfg.natural_failure().map(|(_, e)| vec![e]).unwrap_or_default() };
-    let either = faults.is_empty() && cfg.natural_failure().is_none() && cfg.drops_both_ids();
-    let must_fail = !expected_errnos.is_empty() && !tolerated;
+    // an Err may carry the errno of any step that failed (injected or natural); spawn MUST fail when a
+    // step failed that cannot be absorbed
+    let natural = cfg.natural_failure();
+    let tolerated = !faults.is_empty() && faults.iter().all(|f| f.tolerable()) && natural.is_none();
+    let mut expected_errnos: Vec<i32> = faults.iter().map(|f| f.errno).collect();
+    if let Some((_, e)) = &natural {
+        expected_errnos.push(*e);
+    }
+    let either = faults.is_empty() && natural.is_none() && cfg.drops_both_ids();
+    let must_fail = natural.is_some() || faults.iter().any(|f| !f.tolerable());
+    if let Some(f) = faults.iter().find(|f| f.site.is_some()) {
+        let times = f.site.map(|x| x.2).unwrap_or(0) as u64;
+        r.outcome(if obs["site_applied"].as_u64() == Some(times) { "eintr-run-fully-retried" } else { "eintr-run-cut-short" });
+    }
     if spawn_ok {
         if must_fail {
             r.outcome("ok-despite-failed-step");
@@ -1136,6 +1206,14 @@ fn judge(ctx: &Ctx, cfg: &Config, faults: &[Fault], res: &Result<Value, String>,
         r.violation("C13:spawn:err-without-failed-step", format!("no step failed but spawn returned {}", obs["err"]), rp);
         return;
     }
+    if tolerated && !obs["helper"].is_null() {
+        r.outcome("err-although-program-ran");
+        r.violation(
+            &format!("C13:spawn:err-although-program-ran:{step}"),
+            format!("the only deviation was {step} answering errno {:?} ({} time(s)); spawn returned {} although the child executed the program", expected_errnos, obs["site_applied"].as_u64().unwrap_or(0).max(1), obs["err"]),
+            rp.clone(),
+        );
+    }
     let accept: Vec<i32> = if either { vec![libc::EPERM] } else { expected_errnos.clone() };
     let code = obs["err"]["code"].as_i64();
     match code {
@@ -1149,8 +1227,19 @@ fn judge(ctx: &Ctx, cfg: &Config, faults: &[Fault], res: &Result<Value, String>,
             r.violation(&format!("C13:spawn:wrong-errno:{step}"), format!("step {step} failed with errno {accept:?}; the error is {}", obs["err"]), rp.clone());
         }
     }
-    // nobody may be left running the caller's code
+    // nobody may be left running the caller's code; when the only deviations were absorbable ones (an
+    // interrupted call, a close reporting late) an Err must not leave any child behind at all
     for l in obs["left"].as_array().cloned().unwrap_or_default() {
+        if tolerated {
+            let alive = l["state"] != "zombie";
+            r.outcome(if alive { "err-eintr-child-left-running" } else { "err-eintr-child-left-unreaped" });
+            r.violation(
+                if alive { "C13:spawn:err-but-child-left-running" } else { "C13:spawn:err-but-child-not-reaped" },
+                format!("the only deviation was {step} answering errno {:?} ({} time(s)); spawn returned {} and left {l}", expected_errnos, obs["site_applied"].as_u64().unwrap_or(0).max(1), obs["err"]),
+                rp.clone(),
+            );
+            continue;
+        }
         match l["state"].as_str() {
             Some("zombie") => r.outcome("err-child-left-unreaped"),
             Some("alive") if l["is_helper"] == true => r.outcome("err-but-program-running"),
@@ -1171,7 +1260,37 @@ fn faults_of_trace(obs: &Value, thorough: bool) -> Vec<Fault> {
         let a = &e["args"];
         let args = [a[0].as_u64().unwrap_or(0), a[1].as_u64().unwrap_or(0), a[2].as_u64().unwrap_or(0), 0, 0, 0];
         for (errno, after_real) in menu(nr, thorough) {
-            v.push(Fault { child, idx: e["idx"].as_u64().unwrap_or(0) as usize, nr, errno, after_real, step: step_name(child, nr, &args) });
+            v.push(Fault { child, idx: e["idx"].as_u64().unwrap_or(0) as usize, nr, errno, after_real, step: step_name(child, nr, &args), site: None });
+        }
+    }
+    v
+}
+
+/// Repeated deviations: every call site of the trace that can be interrupted (read of the sync pipe,
+/// wait4, dup3) answers EINTR r times in a row (r in REPEATS) and then proceeds.  r = 1 is left out where
+/// the single-call menu already holds EINTR for that call.
+fn site_faults_of_trace(obs: &Value, only: &[i64]) -> Vec<Fault> {
+    let mut v = Vec::new();
+    let mut seen: HashSet<(bool, i64, u64, u64)> = HashSet::new();
+    for e in obs["trace"].as_array().cloned().unwrap_or_default() {
+        let child = e["side"] == "child";
+        let nr = e["nr"].as_i64().unwrap_or(-1);
+        if !(nr == libc::SYS_read || nr == libc::SYS_wait4 || nr == libc::SYS_dup3) || !(only.is_empty() || only.contains(&nr)) {
+            continue;
+        }
+        let a = &e["args"];
+        let args = [a[0].as_u64().unwrap_or(0), a[1].as_u64().unwrap_or(0), a[2].as_u64().unwrap_or(0), 0, 0, 0];
+        let a1 = if nr == libc::SYS_dup3 { args[1] } else { 0 };
+        let a0 = if nr == libc::SYS_wait4 { 0 } else { args[0] };
+        if !seen.insert((child, nr, a0, a1)) {
+            continue;
+        }
+        let single_in_menu = menu(nr, false).iter().any(|m| m.0 == libc::EINTR);
+        for r in REPEATS {
+            if r == 1 && single_in_menu {
+                continue;
+            }
+            v.push(Fault { child, idx: e["idx"].as_u64().unwrap_or(0) as usize, nr, errno: libc::EINTR, after_real: false, step: step_name(child, nr, &args), site: Some((a0, a1, r)) });
         }
     }
     v
@@ -1219,11 +1338,31 @@ fn check_config(sh: &Shard, job: &Job, r: &mut Report) {
     r.sample(json!({"cfg": cfg.to_json(), "spawn": obs["spawn"], "err": obs["err"], "wait": obs["wait"], "calls_parent": np, "calls_child": nc,
                     "child_argv": obs["helper"]["argv"].as_array().map(|a| a.iter().map(|s| show_bytes(&unhex(s.as_str().unwrap_or("")))).collect::<Vec<_>>())}));
     }
-    if !job.faults || cfg.natural_failure().is_some() || cfg.drops_both_ids() {
+    if !job.faults || cfg.drops_both_ids() {
         clear_case();
         return;
     }
-    let faults = faults_of_trace(&obs, job.full_menu);
+    if cfg.natural_failure().is_some() {
+        // a command that fails by itself: only the interruptible calls of the failure path (the read of the
+        // sync pipe, the wait4 that reaps the failed child) are deviated, repeatedly
+        if !job.pairs {
+            for f in site_faults_of_trace(&obs, &[libc::SYS_read, libc::SYS_wait4]) {
+                let fs = [f.clone()];
+                set_case(&replay_of(cfg, &fs).to_string());
+                let res1 = sh.run(cfg, &fs);
+                r.eval();
+                if !skipped(&res1) {
+                    r.nontrivial_unique();
+                }
+                judge(&sh.ctx, cfg, &fs, &res1, r);
+                r.outcome(&format!("eintr-run@{}", f.step));
+            }
+        }
+        clear_case();
+        return;
+    }
+    let mut faults = faults_of_trace(&obs, job.full_menu);
+    faults.extend(site_faults_of_trace(&obs, &[]));
     let mut firsts: Vec<(Fault, Value)> = Vec::new();
     for f in &faults {
         let fs = [f.clone()];
@@ -1235,8 +1374,8 @@ fn check_config(sh: &Shard, job: &Job, r: &mut Report) {
                 r.nontrivial_unique();
             }
             judge(&sh.ctx, cfg, &fs, &res1, r);
-            r.outcome(&format!("fault@{}", f.step));
-        } else if let Ok(o1) = res1 {
+            r.outcome(&format!("{}@{}", if f.site.is_some() { "eintr-run" } else { "fault" }, f.step));
+        } else if let (Ok(o1), None) = (res1, &f.site) {
             firsts.push((f.clone(), o1));
         }
     }
@@ -1385,6 +1524,36 @@ fn single_factor(ctx: &Ctx) -> Vec<Config> {
     v
 }
 
+/// n recognisable arguments a0, a1, ...
+fn ladder_args(n: usize) -> Vec<Vec<u8>> {
+    (0..n).map(|i| format!("a{i}").into_bytes()).collect()
+}
+/// n recognisable environment entries E0=v0, E1=v1, ...
+fn ladder_env(n: usize) -> Vec<Vec<u8>> {
+    (0..n).map(|i| format!("E{i}=v{i}").into_bytes()).collect()
+}
+fn ladder_counts(thorough: bool) -> Vec<usize> {
+    let mut v: Vec<usize> = (0..=if thorough { 300 } else { 70 }).collect();
+    v.extend([127, 128, 129, 255, 256, 257, 1000]);
+    if thorough {
+        v.extend([511, 512, 513, 1023, 1024, 1025, 4096]);
+    }
+    v.sort();
+    v.dedup();
+    v
+}
+/// count ladders (fault-free): every number of arguments, every number of provided environment entries
+fn ladders(thorough: bool) -> Vec<Config> {
+    let mut v = Vec::new();
+    for n in ladder_counts(thorough) {
+        v.push(Config { args: ladder_args(n), ..Config::base() });
+    }
+    for n in ladder_counts(thorough) {
+        v.push(Config { env: Some(ladder_env(n)), ..Config::base() });
+    }
+    v
+}
+
 fn stdio_triples() -> Vec<Config> {
     let mut v = Vec::new();
     for a in SMS {
@@ -1460,6 +1629,9 @@ fn jobs(ctx: &Ctx) -> Vec<Job> {
     for c in stdio_triples() {
         add(c, true, t, false, &mut out);
     }
+    for c in ladders(t) {
+        add(c, false, false, false, &mut out);
+    }
     for c in product(t) {
         add(c, t, false, false, &mut out);
     }
@@ -1509,7 +1681,9 @@ fn c13(args: &Args) -> Report {
     r.bound("configurations_with_fault_enumeration", n_fault_cfg as u64);
     r.bound("shards", n_shards as u64);
     r.bound("deviations", if args.thorough { "every single call of parent and child x full errno menu for the single-factor configurations and the 125 stdio triples, x 1-2 errnos for the product; pairs (second deviation after the first, full menu) for the base command and the all-pipes command" } else { "every single call of parent and child x 1-2 errnos, for every configuration" });
-    r.bound("args", "0..2 arguments incl. empty string and non-UTF-8 bytes");
+    r.bound("args", "0..2 arguments incl. empty string and non-UTF-8 bytes; count ladder (fault-free) n = 0..=70 (thorough 0..=300) + {127,128,129,255,256,257,1000} (thorough + 511..513, 1023..1025, 4096), argument i = \"a<i>\"; the same ladder for provided environment entries \"E<i>=v<i>\"");
+    r.bound("repeated_deviations", "every interruptible call site (read of the sync pipe, dup3, wait4 on the failure path) answers EINTR 1,2,3,5 times in a row, matched by (syscall, descriptor)");
+    r.note("the harness runs under a global allocator that fills every fresh block and 16 bytes of slack behind it with 0xA5: an unterminated argv/envp vector reaches execve as a wild pointer instead of ending at an accidental zero word");
     r.bound("env", if WITH_START { "nothing given (Inherit) over an installed process environment of {none, 0, 1, 2 entries}, envs(0..2 entries) over it (thorough: entry without '=', empty value, non-UTF-8, duplicate key, empty entry)" } else { "nothing given (None), envs(0..2 entries) (thorough: entry without '=', empty value, non-UTF-8, duplicate key, empty entry)" });
     r.bound("wall_s", (t0.elapsed().as_millis() as u64) as f64 / 1000.0);
     r.note(if WITH_START {
@@ -1548,10 +1722,12 @@ struct WsCase {
     mode: String,
     /// the k-th wait4 call (over the whole sequence) answers EINTR
     fault_k: Option<usize>,
+    /// how many consecutive wait4 calls, from the k-th on, answer EINTR
+    times: usize,
 }
 impl WsCase {
     fn to_json(&self) -> Value {
-        json!({"op": "waitseq", "variant": if WITH_START { "start" } else { "nostart" }, "seq": self.seq, "status": self.status, "mode": self.mode, "fault_k": self.fault_k})
+        json!({"op": "waitseq", "variant": if WITH_START { "start" } else { "nostart" }, "seq": self.seq, "status": self.status, "mode": self.mode, "fault_k": self.fault_k, "times": self.times})
     }
     fn from_json(v: &Value) -> WsCase {
         WsCase {
@@ -1559,6 +1735,7 @@ impl WsCase {
             status: v["status"].as_str().unwrap_or("exit7").into(),
             mode: v["mode"].as_str().unwrap_or("X").into(),
             fault_k: v["fault_k"].as_u64().map(|k| k as usize),
+            times: v["times"].as_u64().unwrap_or(1) as usize,
         }
     }
     /// values the API may report for the child's end: the raw wait status, or the exit-code convention
@@ -1573,16 +1750,19 @@ impl WsCase {
 
 struct WaitPlan {
     fault_k: Option<usize>,
+    times: usize,
     seen: usize,
     hit: bool,
+    applied: usize,
 }
 impl sysx::Plan for WaitPlan {
     fn decide(&mut self, _idx: usize, nr: i64, _args: &[u64; 6]) -> sysx::Decision {
         if nr == libc::SYS_wait4 {
             let me = self.seen;
             self.seen += 1;
-            if Some(me) == self.fault_k {
+            if self.fault_k.map(|k| me >= k && me < k + self.times).unwrap_or(false) {
                 self.hit = true;
+                self.applied += 1;
                 return sysx::Decision::Force(-(libc::EINTR as i64));
             }
         }
@@ -1656,11 +1836,11 @@ fn exec_waitseq(ctx: &Ctx, sdir: &str, shm: *mut Shm, case: &WsCase) -> ! {
         if hold.is_none() {
             finish(shm, &json!({"machinery": "Child.stdin is None although stdin = MakePipe"}));
         }
-        let mut plan = WaitPlan { fault_k: case.fault_k, seen: 0, hit: false };
+        let mut plan = WaitPlan { fault_k: case.fault_k, times: case.times, seen: 0, hit: false, applied: 0 };
         let mut recs: Vec<Value> = Vec::new();
         for op in &case.seq {
             let seen_before = plan.seen;
-            let hit_before = plan.hit;
+            let applied_before = plan.applied;
             let mut rec = json!({"op": op});
             match op.as_str() {
                 "X" => {
@@ -1695,7 +1875,7 @@ fn exec_waitseq(ctx: &Ctx, sdir: &str, shm: *mut Shm, case: &WsCase) -> ! {
             }
             rec["state_after"] = json!(child_state(pid));
             rec["wait4_calls"] = json!(plan.seen - seen_before);
-            rec["fault_here"] = json!(plan.hit && !hit_before);
+            rec["fault_here"] = json!(plan.applied > applied_before);
             recs.push(rec);
         }
         // clean up: release, let it end, reap whatever the API left
@@ -1720,7 +1900,7 @@ fn exec_waitseq(ctx: &Ctx, sdir: &str, shm: *mut Shm, case: &WsCase) -> ! {
 
 fn judge_waitseq(case: &WsCase, res: &Result<Value, String>, r: &mut Report) {
     let rp = case.to_json();
-    let what = format!("[{}] on a child that ends with {} (release mode {}{})", case.seq.join(" "), case.status, case.mode, case.fault_k.map(|k| format!(", wait4 #{k} answers EINTR")).unwrap_or_default());
+    let what = format!("[{}] on a child that ends with {} (release mode {}{})", case.seq.join(" "), case.status, case.mode, case.fault_k.map(|k| format!(", wait4 #{k} answers EINTR {}x in a row", case.times)).unwrap_or_default());
     let obs = match res {
         Ok(o) => o,
         Err(e) if e == "hang" => {
@@ -1889,11 +2069,14 @@ fn waitseq(args: &Args) -> Report {
             let mut r = Report::new();
             let sh = Shard::new(&ctx, &format!("w{i}"));
             for (seq, status, mode) in &chunk {
-                let mut case = WsCase { seq: seq.clone(), status: status.clone(), mode: mode.clone(), fault_k: None };
-                let mut n_wait4 = 0;
-                let mut k = None;
-                loop {
-                    case.fault_k = k;
+                let mut case = WsCase { seq: seq.clone(), status: status.clone(), mode: mode.clone(), fault_k: None, times: 1 };
+                // fault-free first (it tells how many wait4 calls the sequence makes), then EINTR runs:
+                // from the first wait4 call 1, 2, 3, 5 times in a row (thorough: from every call)
+                let mut todo: Vec<(Option<usize>, usize)> = vec![(None, 1)];
+                let mut i = 0;
+                while i < todo.len() {
+                    (case.fault_k, case.times) = todo[i];
+                    i += 1;
                     set_case(&case.to_json().to_string());
                     r.eval();
                     let res = sh.run_p(|| exec_waitseq(&sh.ctx, &sh.sdir, sh.shm, &case));
@@ -1901,20 +2084,19 @@ fn waitseq(args: &Args) -> Report {
                         r.nontrivial_unique();
                     }
                     judge_waitseq(&case, &res, &mut r);
-                    if k.is_none() {
-                        n_wait4 = res.as_ref().ok().and_then(|o| o["wait4_total"].as_u64()).unwrap_or(0) as usize;
+                    if case.fault_k.is_none() {
+                        let n_wait4 = res.as_ref().ok().and_then(|o| o["wait4_total"].as_u64()).unwrap_or(0) as usize;
                         if r.samples.len() < 3 {
                             if let Ok(o) = &res {
                                 r.sample(json!({"case": case.to_json(), "steps": o["recs"]}));
                             }
                         }
+                        for k in 0..n_wait4.min(if thorough { usize::MAX } else { 1 }) {
+                            for t in REPEATS {
+                                todo.push((Some(k), t));
+                            }
+                        }
                     }
-                    // EINTR on the first wait4 call (thorough: on each one)
-                    let next = k.map(|x| x + 1).unwrap_or(0);
-                    if next >= n_wait4 || (!thorough && next >= 1) {
-                        break;
-                    }
-                    k = Some(next);
                 }
             }
             clear_case();
@@ -1929,7 +2111,7 @@ fn waitseq(args: &Args) -> Report {
     r.bound("max_sequence_length", max_len as u64);
     r.bound("sequences", seqs.len() as u64);
     r.bound("sequence_x_status_x_mode", n_groups as u64);
-    r.bound("wait4_faults", if args.thorough { "EINTR on each wait4 call of the sequence, one at a time" } else { "EINTR on the first wait4 call" });
+    r.bound("wait4_faults", if args.thorough { "EINTR 1,2,3,5 times in a row starting at each wait4 call of the sequence" } else { "EINTR 1,2,3,5 times in a row starting at the first wait4 call" });
     r.bound("linger_ms", LINGER_MS as u64);
     r.bound("wall_s", (t0.elapsed().as_millis() as u64) as f64 / 1000.0);
     r.note("Process::wait / try_wait have no cfg(feature = \"start\") difference: one build decides this phase");
